@@ -116,7 +116,8 @@ CHECKS['C14'] = dict(
     design='4 C14')
 
 CHECKS['C02'] = dict(
-    technique='differential testing against an independent reference '
+    technique='[thorough tier additionally: atheris/libFuzzer coverage-guided fuzzing of the same Hypothesis strategy through hypothesis.fuzz_one_input, 16 processes] '
+              'differential testing against an independent reference '
               'implementation of the documented pipeline (yv/refsem.py) on '
               'Hypothesis-generated (model, document) pairs and on a bounded-'
               'exhaustive enumeration of small documents',
@@ -133,7 +134,8 @@ CHECKS['C02'] = dict(
     design='4 C02')
 
 CHECKS['C03'] = dict(
-    technique='differential testing against the reference semantics with the '
+    technique='[thorough tier additionally: atheris/libFuzzer coverage-guided fuzzing of the same Hypothesis strategy through hypothesis.fuzz_one_input, 16 processes] '
+              'differential testing against the reference semantics with the '
               'tag rule + reference-free invariants + metamorphic relation '
               '(permutation of Union members and registration order), on '
               'Hypothesis-generated and bounded-exhaustive tagged documents',
@@ -201,7 +203,8 @@ CHECKS['C06'] = dict(
     design='4 C06')
 
 CHECKS['C05'] = dict(
-    technique='Hypothesis-generated (model, value) round trips load(dumps(v)) '
+    technique='[thorough tier additionally: atheris/libFuzzer coverage-guided fuzzing of the same Hypothesis strategy through hypothesis.fuzz_one_input, 16 processes] '
+              'Hypothesis-generated (model, value) round trips load(dumps(v)) '
               '== v, with unambiguity decided independently by the reference '
               'semantics on the documented projection; exhaustive pass over '
               'the adversarial string pool x positions',
